@@ -310,9 +310,9 @@ func init() {
 		Rule: "generated regex-assembly programs in mechanism-directed lanes (mixed, segments of unfactorable alternations between markers, stored expressions appended repeatedly and across blocks, nested blocks beside entries sharing a prefix, prefix+suffix, flag sets, cmdline blocks in four surroundings, a lone entry or block before a marker, escapes, white-space classes, both cases of a letter as alternatives, dot/newline alternatives; plus the include, include-except and definition programs of C05-C07; entries are random RE2 expressions over literals, classes, shorthands, assertions, hex/non-ASCII, groups nested <= 2, all quantifier forms; nesting <= 3; lower-case only under the i flag) are compiled by the built CLI (`regex generate -`). " +
 			"Oracle: an independent plain-reading model renders the reference regex (every entry in its own group, no simplification); the two regexes are compared exactly over an alphabet containing a representative of every rune class either program can distinguish (VT excluded) by product subset construction of the compiled regexp/syntax programs under search semantics (budget 200000 product states, then sampling); a witness is confirmed with Go's regexp before it counts. Hook events attribute a difference to a pipeline step; only a difference that is exactly the listed loss of the flag-stripping or vertical-tab pass is a known finding. Non-trivial = >= 2 entries and output text different from the naive rendering.",
 		Cases: func(env *core.Env, rng *rand.Rand) []core.Case {
-			cs := raCases(env, rng, env.N(700, 20000), ra.Opts{Cmdline: true, Flags: true, Affixes: true, Upper: true}, ra.Lanes)
+			cs := raCases(env, rng, env.N(1500, 24000), ra.Opts{Cmdline: true, Flags: true, Affixes: true, Upper: true}, ra.Lanes)
 			// programs with includes, include-except and definitions (the generators of C05-C07), judged against the plain reading
-			for i, n := 0, env.N(150, 4000); i < n; i++ {
+			for i, n := 0, env.N(300, 5000); i < n; i++ {
 				var m *metaCase
 				switch i % 3 {
 				case 0:
